@@ -1,0 +1,66 @@
+//go:build verif
+
+// Contracts for the deductive verifier in /verif (comment-only; never compiled into the library).
+
+package message
+
+//@ pkg github.com/bbockelm/cedar/message
+
+// Abstract state of the stream behind a Message (data refinement of *stream.Stream: strmEncrypting = s.encrypted,
+// strmKeyed = s.gcm != nil; see the `refine` clauses in stream/verif_contracts.go).
+//@ ghost var strmEncrypting bool
+//@ ghost var strmKeyed bool
+
+//@ assignset ifaceRead = rdCount, rdTotal, rdLast, rdFail, ctxClock, afCtx, afCount, hashWrites, openCount, openOKCount, openPT, openNonce, openAAD, openCT, openObj
+//@ assignset ifaceWrite = wrCount, wrLast, sealCount, sealPT, sealNonce, sealAAD, sealObj, sealOut, ctxClock, afCtx, afCount, hashWrites
+
+//@ func StreamInterface.IsEncrypted () (result)
+//@   props C09 C14
+//@   pure
+//@   ensures result == strmEncrypting
+
+//@ func StreamInterface.WriteFrame (ctx, data, isEOM) (err)
+//@   requires size: len(data) <= 1048576
+//@   props C01 C09
+//@   assigns @ifaceWrite, ifaceobj(self, "*stream.Stream"), when(typeis(self, "*stream.Stream"), elems(unbox(self, "*stream.Stream").frameBuf))
+//@   ensures written: err == nil ==> wrCount == old(wrCount) + 1 && wrLast[0] == ite(isEOM, 1, 0)
+//@   ensures plain_payload: err == nil && !(strmEncrypting && strmKeyed) ==> len(wrLast) == 5 + len(data) && forall i :: 0 <= i && i < len(data) ==> wrLast[5+i] == old(data[i])
+//@   ensures sealed: err == nil && strmEncrypting && strmKeyed ==> sealCount == old(sealCount) + 1 && sealPT == old(str(data))
+//@   ensures plain_noseal: !(strmEncrypting && strmKeyed) ==> sealCount == old(sealCount)
+//@   ensures at_most_one: wrCount <= old(wrCount) + 1
+
+//@ func StreamInterface.ReadFrame (ctx) (data, isEOM, err)
+//@   props C01 C02 C13
+//@   assigns @ifaceRead, ifaceobj(self, "*stream.Stream")
+//@   ensures err_nodata: err != nil ==> data == nil && !isEOM && openOKCount == old(openOKCount)
+//@   ensures not_eof: err != io.EOF
+//@   ensures bounded: err == nil ==> len(data) <= 1048576 + 32
+//@   ensures consumed: err == nil ==> rdTotal >= old(rdTotal) + 5 + len(data)
+//@   ensures monotone: rdTotal >= old(rdTotal) && openOKCount >= old(openOKCount)
+//@   ensures auth_gate: err == nil && strmEncrypting && strmKeyed ==> openOKCount == old(openOKCount) + 1 && str(data) == openPT
+
+//@ pred msgInv(m) = m.buffer != nil && bufWF(m.buffer) && m.stream != nil
+//@ view viewLen(m) = bufLen(m.buffer)
+//@ view viewAt(m, i) = bufAt(m.buffer, i)
+
+//@ assignset msgBuf = m.buffer.buf, m.buffer.off, m.buffer.lastRead, elems(m.buffer.buf)
+//@ assignset msgRead = m.isEOM, m.finished, @msgBuf, @ifaceRead, ifaceobj(m.stream, "*stream.Stream")
+//@ assignset msgWrite = @msgBuf, @ifaceWrite, ifaceobj(m.stream, "*stream.Stream"), when(typeis(m.stream, "*stream.Stream"), elems(unbox(m.stream, "*stream.Stream").frameBuf))
+
+//@ func (*Message).ensureData
+//@   props C01 C02 C13 C14
+//@   requires inv: msgInv(m)
+//@   assigns @msgRead
+//@   loop 1 invariant inv: msgInv(m) && m.buffer == old(m.buffer) && viewLen(m) >= old(viewLen(m)) && rdTotal >= old(rdTotal) && openOKCount >= old(openOKCount)
+//@   loop 1 invariant prefix: forall i :: 0 <= i && i < old(viewLen(m)) ==> viewAt(m, i) == old(viewAt(m, i))
+//@   loop 1 invariant proportional: viewLen(m) - old(viewLen(m)) <= rdTotal - old(rdTotal)
+//@   loop 1 invariant idle: old(viewLen(m)) >= needed || old(m.isEOM) ==> rdTotal == old(rdTotal) && viewLen(m) == old(viewLen(m)) && m.isEOM == old(m.isEOM)
+//@   loop 1 invariant buf_own: ref(m.buffer.buf) == old(ref(m.buffer.buf)) || fresh(m.buffer.buf)
+//@   ensures enough: err == nil ==> viewLen(m) >= needed
+//@   ensures view_prefix: [C14 C01] forall i :: 0 <= i && i < old(viewLen(m)) ==> viewAt(m, i) == old(viewAt(m, i))
+//@   ensures no_io_if_buffered: [C14] old(viewLen(m)) >= needed || old(m.isEOM) ==> rdTotal == old(rdTotal) && viewLen(m) == old(viewLen(m))
+//@   ensures buffered_ok: old(viewLen(m)) >= needed ==> err == nil
+//@   ensures grows_only: viewLen(m) >= old(viewLen(m))
+//@   ensures proportional: [C13] viewLen(m) - old(viewLen(m)) <= rdTotal - old(rdTotal)
+//@   ensures eof_means_eom: [C02] err == io.EOF ==> m.isEOM && viewLen(m) < needed
+//@   ensures inv_kept: msgInv(m) && m.buffer == old(m.buffer) && m.stream == old(m.stream)
